@@ -188,3 +188,22 @@ package dispatch
 //@   at call DeleteByGroupKey assert [uncount-only-deleted] called("CompareAndDelete") && ret("CompareAndDelete")
 //@   at call atomic.Int64).Add assert [uncount-only-deleted2] called("CompareAndDelete") && ret("CompareAndDelete")
 //@   noeffect aggrGroup).destroyed aggrGroup).stop DeleteByGroupKey fingerprint GroupKey
+
+// ---- C04 / C05 / C06: what a flush is given. Each tick of the group's timer: the pipeline context carries the tick
+// instant itself (not a later reading of the clock), the group's key, labels, receiver and repeat interval; the
+// timer is re-armed to group_interval BEFORE the flush runs (so a slow flush does not delay the next one); and the
+// loop ends only when the group was destroyed or its context cancelled. (select/ticker are abstracted: any tick
+// value, any interleaving with cancellation.)
+//@ func (*aggrGroup).run
+//@   props C04 C05 C06
+//@   nosafe
+//@   opaque aggrGroup).flush notify.With marker.WithContext context.WithTimeout aggrGroup).GroupKey aggrGroup).destroyed Timer).Stop
+//@   noeffect notify.With marker.WithContext context.WithTimeout aggrGroup).GroupKey aggrGroup).destroyed dynamic:field:timeout dynamic: Timer).Stop
+//@   at call notify.WithNow assert [tick-instant-not-clock] arg1 == now
+//@   at call notify.WithRepeatInterval assert [repeat-of-the-route] arg1 == cell(ag).opts.RepeatInterval
+//@   at call notify.WithReceiverName assert [receiver-of-the-route] arg1 == cell(ag).opts.Receiver
+//@   at call notify.WithGroupKey assert [key-of-this-group] arg1 == ret("aggrGroup).GroupKey")
+//@   at call aggrGroup).resetTimer assert [rearm-to-group-interval] arg1 == cell(ag).opts.GroupInterval
+//@   at call aggrGroup).resetTimer assert [one-rearm-per-flush] count("aggrGroup).resetTimer") == count("aggrGroup).flush")
+//@   at call aggrGroup).flush assert [rearmed-before-flush] count("aggrGroup).resetTimer") == count("aggrGroup).flush") + 1 && count("notify.WithNow") == count("aggrGroup).flush") + 1
+//@   loop 1 invariant count("aggrGroup).resetTimer") == count("aggrGroup).flush") && count("notify.WithNow") == count("aggrGroup).flush")
